@@ -370,6 +370,11 @@ func init() {
 		Floors:      map[string]int64{"C03/authorised-success:*": 200, "C03/unauthorised-rejected:*": 500},
 		Run: func(c *harness.Ctx) {
 			c03Directed(c)
+			for _, S := range []uint32{1, 2} {
+				if mine(c, 5+int(S)) {
+					growthHistory(c, 2, S, "C03")
+				}
+			}
 			runWalks(c, c.Scale(400, 1500), c.Scale(70, 120), 20, true, "C03")
 		},
 	})
@@ -383,6 +388,7 @@ func init() {
 		Run: func(c *harness.Ctx) {
 			c04Directed(c)
 			c04SystemAddressForms(c)
+			c04LookAlikes(c)
 			hugeNonceOps(c, []string{"C04"})
 			runWalks(c, c.Scale(400, 1500), c.Scale(70, 120), 10, true, "C04")
 		},
@@ -459,6 +465,11 @@ func init() {
 			refundMatrix(c, en)
 			c10Extra(c)
 			bigMulti(c, en)
+			for v := 0; v < 2; v++ {
+				if mine(c, 2+v) {
+					growthHistory(c, v, 2, en...)
+				}
+			}
 			runWalks(c, c.Scale(400, 1500), c.Scale(70, 120), 10, true, en...)
 		},
 	})
@@ -843,6 +854,56 @@ func c04SystemAddressForms(c *harness.Ctx) {
 	}
 }
 
+// c04LookAlikes: ordinary accounts whose addresses resemble the ESDT system contract's (the exempt
+// account is that one address, not its neighbours): same first 30 bytes with another shard
+// identifier, one byte off, and an ordinary contract for comparison. Each is funded, given roles,
+// frozen (then the token paused) and tries to move, burn and mint; it is also a destination.
+func c04LookAlikes(c *harness.Ctx) {
+	sys := gen.SysSC
+	mod := func(at int, v byte) []byte { a := append([]byte{}, sys...); a[at] = v; return a }
+	tail := func(x, y byte) []byte { a := append([]byte{}, sys...); a[30], a[31] = x, y; return a }
+	likes := [][]byte{tail(0, 0), tail(0xff, 0), tail(0x01, 0), tail(0xff, 0xfe), mod(29, 3), mod(9, 1), mod(20, 7), gen.ContractAddr(5, 0)}
+	for li, L := range likes {
+		if !mine(c, li+2) {
+			continue
+		}
+		for _, S := range []uint32{1, 2} {
+			s := NewScn(c.Rand("c04like").Fork(uint64(li)), c.R, ScnOpts{Shards: S, Enabled: []string{"C04"}})
+			u := s.U
+			if world.ComputeShard(u.W.NumShards, L) >= u.W.NumShards {
+				continue // maps to the metachain in this layout: no account to hold anything
+			}
+			acc := u.W.Account(L)
+			acc.CodeMeta = (&vmcommon.CodeMetadata{Payable: true, Readable: true}).ToBytes()
+			if l := u.Issue(L, s.F1, big.NewInt(500)); !l.OK {
+				c.R.Cover("C04/lookalike-cannot-be-funded")
+				continue
+			}
+			u.SetRoles(L, s.F1, RoleMint, RoleBurn)
+			attempts := func() {
+				u.N.Exec(gen.TransferCall(L, s.Same, s.F1, big.NewInt(5), gen.BigGas))
+				u.N.Exec(gen.TransferCall(L, s.Other, s.F1, big.NewInt(5), gen.BigGas))
+				u.N.Exec(gen.MultiCall(L, s.Same, []gen.Item{{ID: s.F1, Qty: big.NewInt(2)}}, gen.BigGas))
+				u.N.Exec(node.Call{Func: FBurn, Caller: L, Recipient: gen.SysSC, Args: [][]byte{s.F1, gen.Big(3)}, Gas: gen.BigGas})
+				u.N.Exec(gen.SelfCall(FLocalMint, L, gen.BigGas, s.F1, gen.Big(3)))
+				u.N.Exec(gen.SelfCall(FLocalBurn, L, gen.BigGas, s.F1, gen.Big(3)))
+				u.N.Exec(gen.TransferCall(s.A, L, s.F1, big.NewInt(4), gen.BigGas))
+				u.N.Exec(gen.MultiCall(s.A, L, []gen.Item{{ID: s.F1, Qty: big.NewInt(2)}}, gen.BigGas))
+				drain(u.N)
+			}
+			u.Freeze(L, s.F1)
+			attempts()
+			u.UnFreeze(L, s.F1)
+			for sh := uint32(0); sh < S; sh++ {
+				u.N.ExecAt(sh, node.Call{Func: FPause, Caller: gen.SysSC, Recipient: vmcommon.SystemAccountAddress, Args: [][]byte{s.F1}})
+			}
+			attempts()
+			c.R.Cover("C04/lookalike-accounts")
+			c.R.Eval(u.N.Seq())
+		}
+	}
+}
+
 // ---------------------------------------------------------------------------------------------
 // C04 directed
 
@@ -1042,6 +1103,29 @@ func c05Directed(c *harness.Ctx) {
 			c.R.Cover("C05/flag-sequences")
 			c.R.Eval(u.N.Seq())
 		}
+	}
+	// values that coincide with what OTHER keys hold (or held before this call): every listed pair
+	// is applied, whatever the neighbouring pairs are. Every arrangement of three keys (one stored
+	// with X, one stored with Y, one new) x values drawn from {X, Y, new, empty}
+	if mine(c, 3) {
+		vals := [][]byte{[]byte("red"), []byte("blue"), []byte("new"), {}}
+		keys3 := [][]byte{[]byte("colour"), []byte("paint"), []byte("fresh")}
+		n := 0
+		for perm := 0; perm < 6; perm++ {
+			order := [][]int{{0, 1, 2}, {0, 2, 1}, {1, 0, 2}, {1, 2, 0}, {2, 0, 1}, {2, 1, 0}}[perm]
+			for vcode := 0; vcode < 64; vcode++ {
+				s := NewScn(c.Rand("c05co").Fork(uint64(perm*64+vcode)), c.R, ScnOpts{Shards: 1, Enabled: []string{"C05"}})
+				gen.Must(s.U.N.Exec(node.Call{Func: FSaveKV, Caller: s.A, Recipient: s.A, Args: [][]byte{keys3[0], vals[0], keys3[1], vals[1]}, Gas: gen.BigGas}), "prep")
+				var args [][]byte
+				for j, ki := range order {
+					args = append(args, keys3[ki], vals[(vcode>>(2*uint(j)))&3])
+				}
+				s.U.N.Exec(node.Call{Func: FSaveKV, Caller: s.A, Recipient: s.A, Args: args, Gas: gen.BigGas})
+				n++
+			}
+		}
+		c.R.CoverN("C05/savekv-coinciding-values", int64(n))
+		c.R.Eval(n)
 	}
 	for _, S := range []uint32{1, 2} {
 		s0 := NewScn(c.Rand("c05k"), c.R, ScnOpts{Shards: S})
@@ -1777,6 +1861,14 @@ func c10Extra(c *harness.Ctx) {
 // hugeNonceOps: every NFT operation on nonces around the 8-, 32-, 63- and 64-bit boundaries
 // (counters seeded directly, storage and shadow alike).
 func hugeNonceOps(c *harness.Ctx, enabled []string) {
+	// what long use grows into (growth.go): URI lists / attributes, 520 creates, ten-entry role lists
+	for v := 0; v < 3; v++ {
+		for _, S := range []uint32{1, 2} {
+			if mine(c, 3+v*2+int(S)) {
+				growthHistory(c, v, S, enabled...)
+			}
+		}
+	}
 	for k, ctr := range []uint64{254, 65534, 1<<32 - 2, 1<<63 - 2, 1<<63 + 4, ^uint64(0) - 5} {
 		if !mine(c, k) {
 			continue
